@@ -250,12 +250,12 @@ def probes(ctx):
          [R(("a", ("map", [("k", ("int", 1))])), ("t", ("int", 5)))], "assignments are by value: c keeps the value it was assigned"),
         ("indexed-assign-on-scalar-field-or-oosvar-changes-aliased-local", 'end{@s = 1; c = @s; @s["k"] = 2; print c}', [], [("s", "1")],
          "assignments are by value: c keeps the value it was assigned"),
-        # pending: return inside a subroutine also terminates the caller's block
+        # repaired (0661a6ca3): return inside a subroutine ended the caller's block too
         ("subroutine-return-exits-caller-block",
          'subr p(str s) { print "in:".s; if (s == "a") { return } print "tail" } call p("a"); print "after1"; call p("b"); print "after2"', [[("a", "5")]],
          [("s", "in:a"), ("s", "after1"), ("s", "in:b"), ("s", "tail"), ("s", "after2"), R(("a", ("int", 5)))],
          "reference-dsl-user-defined-functions.md: subroutines are invoked by call and cannot return values; return ends the subroutine"),
-        # pending: emit1 puts the stored map itself into the output stream; later updates change the already emitted record
+        # repaired (8bf96899b): emit1 put the stored map itself into the output stream
         ("emit1-emits-map-by-reference", '@c["n"] = NR; emit1 @c; filter false', three,
          [R(("n", ("int", 1))), R(("n", ("int", 2))), R(("n", ("int", 3)))],
          "reference-dsl-output-statements.md: emit1/emit send the variables' CURRENT values to the output record stream"),
@@ -585,6 +585,22 @@ def oracle_table(rng):
     t.append(("pattern-action-begin-end", 'begin { @n = 0 } $a > 0 { @n += 1 } end { emit @n }', [[("a", "1")], [("a", "-1")], [("a", "2")]],
               [R(("a", I(1))), R(("a", I(-1))), R(("a", I(2))), R(("n", I(2)))]))
     t.append(("auto-create-nested", '@s[$b][1] = $a; end { emit1 @s }', [rec], [R(("a", I(k)), ("b", S(w)), ("c", I(7))), R((w, ("map", [("1", I(k))])))]))
+    M3 = '{"a": {"x": {"p": 1, "q": 2}, "y": {"p": 3, "q": 4}}, "b": {"x": {"p": 5, "q": 6}, "y": {"p": 7, "q": 8}}}'
+    t.append(("multikey-break-ends-whole-loop", 'end { n = 0; for ((k1, k2, k3), v in %s) { if (v == 2) { break } n += 1; print k1.":".k2.":".k3."=".v } print "visited=".n }' % M3, [],
+              [("s", "a:x:p=1"), ("s", "visited=1")]))
+    t.append(("multikey-break-ends-whole-loop", 'end { @m = {"z": %s, "w": %s}; for ((k1, k2, k3, k4), v in @m) { if (k3 == "y") { break } print k1.k2.k3.k4.v } print "after" }' % (M3, M3), [],
+              [("s", "zaxp1"), ("s", "zaxq2"), ("s", "after")]))
+    t.append(("multikey-continue-skips-one-leaf", 'end { s = 0; for ((k1, k2, k3), v in %s) { if (v == 4) { continue } s += v } print s }' % M3, [], [("s", "32")]))
+    t.append(("multikey-return-ends-loop-and-function", 'func f(map m): str { for ((k1, k2, k3), v in m) { if (v == 3) { return k1.k2.k3 } } return "none" } end { print f(%s) }' % M3, [],
+              [("s", "ayp")]))
+    t.append(("multikey-two-keys", 'end { for ((k1, k2), v in {"a": {"x": 1, "y": 2}, "b": 5, "c": {"x": 3}}) { if (v == 2) { break } print k1.k2.v } }', [], [("s", "ax1")]))
+    t.append(("return-by-value-snapshot",
+              'func f(): map { @c["v"] += 1; return @c } func bump(): str { @c["v"] += 100; return "bumped" } func g(map m, str s): str { return m["v"] . "/" . s } end { print g(f(), bump()); print @c["v"] }',
+              [], [("s", "1/bumped"), ("s", "101")]))
+    t.append(("return-by-value-snapshot",
+              'func tick(): map { @calls["count"] += 1; return @calls } func two(map x, map y): map { return {"first": x["count"], "second": y["count"]} } $* = mapsum($*, two(tick(), tick())); $total = @calls["count"]'.replace("$* = mapsum($*, two(tick(), tick()))", "t = two(tick(), tick()); $first = t[\"first\"]; $second = t[\"second\"]"),
+              [[("x", "5")], [("x", "7")]],
+              [R(("x", I(5)), ("first", I(1)), ("second", I(2)), ("total", I(2))), R(("x", I(7)), ("first", I(3)), ("second", I(4)), ("total", I(4)))]))
     t.append(("emit-by-names-is-grouping", '@sum[$a][$b] = $c; end { emit @sum, "a", "b" }', [[("a", "x"), ("b", "p"), ("c", "1")], [("a", "y"), ("b", "p"), ("c", "2")], [("a", "x"), ("b", "q"), ("c", "3")]],
               None))
     return t
